@@ -104,6 +104,13 @@ pub mod verif {
     pub fn pad_column_to_wires(pad_column: usize) -> Range<usize> {
         crate::matching::pad_column_to_wires(pad_column)
     }
+    pub fn match_column_inputs(
+        wire_indices: [usize; 8],
+        wire_inputs: &[Vec<f64>; 8],
+        pad_column_inputs: &[Vec<f64>; alpha_g_detector::padwing::map::TPC_PAD_ROWS],
+    ) -> Vec<crate::Avalanche> {
+        crate::matching::match_column_inputs(wire_indices, wire_inputs, pad_column_inputs)
+    }
 }
 
 /// Townsend avalanche generated in the multiplying region near an anode wire
